@@ -59,8 +59,8 @@ var binPrec = map[string]int{
 
 const unaryPrec = 11
 
-func IsUnary(op string) bool { _, ok := UnToken[op]; return ok }
-func IsBinary(op string) bool { _, ok := binPrec[op]; return ok }
+func IsUnary(op string) bool    { _, ok := UnToken[op]; return ok }
+func IsBinary(op string) bool   { _, ok := binPrec[op]; return ok }
 func RightAssoc(op string) bool { return op == ".." || op == "^" }
 
 func (e *Expr) IsLeaf() bool { return e.Op == "" }
